@@ -176,7 +176,13 @@ class LeanDriver:
             err = self.proc.stderr.read() if self.proc.stderr else ""
             raise LeanError(f"driver died: {err[-2000:]}")
         self.n += 1
-        return json.loads(out)
+        try:
+            return json.loads(out)
+        except ValueError:
+            err = ""
+            if self.proc.poll() is not None and self.proc.stderr:
+                err = self.proc.stderr.read()
+            raise LeanError(f"driver answered with something that is not JSON: {out[:300]!r} {err[-1500:]}")
 
     def close(self):
         try:
